@@ -854,6 +854,12 @@ impl KotoVm {
                         self.string_builders
                             .truncate(catch_point.string_builder_count);
 
+                        // Restore the frame's registers, the failed instruction may have discarded
+                        // some of them (e.g. while preparing a call), or left temporary registers
+                        // behind.
+                        self.registers
+                            .resize(self.min_frame_registers, KValue::Null);
+
                         self.set_register(catch_point.error_register, catch_value);
                         self.set_ip(catch_point.catch_ip);
                     }
